@@ -531,6 +531,7 @@ type c10branch struct {
 	failing bool
 	// silentShort: a sink of the branch answers short counts without an error
 	silentShort bool
+	mult        int // failures to report per entry (2: both members of the combined syncer fail)
 	mode        int // 0 write error, 1 short write + error, 2 disk full from call n, 3 sync error, 4 core error
 	errText     string
 	core        zapcore.Core
@@ -684,10 +685,24 @@ func runC10(c *Ctx) {
 		case 1:
 			a, bb := mk(fmt.Sprintf("b%d-0", b)), mk(fmt.Sprintf("b%d-1", b))
 			if br.failing {
-				if f.Chance(2) {
+				switch f.Draw(3) {
+				case 0:
 					setFail(a)
-				} else {
+				case 1:
 					setFail(bb)
+				default:
+					// both members fail every write, with different counts: one
+					// takes nothing, the other a part (or all) of the line - two
+					// failures to report per entry
+					br.mode, br.mult = 0, 2
+					for i := 0; i < 8; i++ {
+						a.WritePlan = append(a.WritePlan, zsim.Outcome{Short: -1, Err: injErr})
+						bb.WritePlan = append(bb.WritePlan, zsim.Outcome{Short: f.Draw(4), Err: injErr})
+					}
+					if f.Chance(2) {
+						a.WritePlan, bb.WritePlan = bb.WritePlan, a.WritePlan
+					}
+					c.R.Probe("both members of a combined syncer fail with different counts")
 				}
 			}
 			silent(bb)
@@ -956,6 +971,9 @@ func runC10(c *Ctx) {
 		switch {
 		case br.mode == 0 || br.mode == 1 || br.mode == 4 || br.mode == 5:
 			want = len(entries) - nDirect // a direct Core.Write returns its error to the caller instead
+			if br.mult > 1 {
+				want *= br.mult
+			}
 		case br.mode == 2 && nDirect > 0:
 			continue
 		case br.mode == 2:
@@ -971,6 +989,9 @@ func runC10(c *Ctx) {
 		if hostileErr {
 			// no text to look for: a report line per failed entry, whatever it says
 			got = strings.Count(string(errOut.Data), "\n")
+			if br.mult > 1 {
+				want /= br.mult // lines, not mentions: one report line per entry
+			}
 		}
 		if got < want {
 			c.Fail("C10: a failing sink or core was not reported on the error output once per affected entry", "branch %d (%s, mode %d, %q): %d entries failed there, the error output mentions the failure %d times; error output: %q", bi, []string{"Lock", "Combine", "custom-core"}[br.kind], br.mode, br.errText, want, got, clip(errOut.Data))
